@@ -1434,8 +1434,10 @@ def _holds_via_closure(facts, fact, pred):
     for _ in range(4):
         if n[0] in ('ref', 'deref', 'after', 'proj', 'field') and len(n) >= 2:
             n = strip(n[1])
-    if n[0] != 'call' or len(n[2]) != 2 or n[1].rsplit('::', 1)[-1] not in (('find', 'position', 'rposition', 'find_map') if fact[0] == 'is' else ('any',)):
+    if n[0] != 'call' or len(n[2]) != 2 or n[1].rsplit('::', 1)[-1] not in (('find', 'position', 'rposition', 'find_map', 'filter') if fact[0] == 'is' else ('any',)):
         return False
+    if n[1].rsplit('::', 1)[-1] == 'filter' and 'Option' not in n[1]:
+        return False            # Option::filter(pred) is Some => pred held; an iterator's filter() says nothing yet
     clo = strip(n[2][1])
     if clo[0] != 'agg' or not str(clo[1]).startswith('closure:'):
         return False
